@@ -12,13 +12,16 @@ using namespace argh;
 namespace {
 
 struct Work { Config cfg; Line line; RealInput in; bool broken = false; unsigned spin = 0; bool usage = false; };
+// in.envBody (if not empty): the first words of the line, delivered through an environment variable of the thread's own
 struct Case { std::vector<Work> work; unsigned repeats = 1; };
 
 std::string showCase(const Case &c) {
   Writer w;
   w.tag("mt_argh").u(c.repeats).u(c.work.size()).nl();
   for (auto &wk : c.work) {
-    w.tag("thread").u(wk.broken).u(wk.spin).nl();
+    w.tag("thread").u(wk.broken).u(wk.spin);
+    if (!wk.in.envBody.empty()) w.s(wk.in.envBody);
+    w.nl();
     writeConfig(w, wk.cfg);
     writeLine(w, wk.line);
     writeWords(w, "argv", wk.in.argv);
@@ -33,6 +36,7 @@ Case parseCase(const std::string &t) {
   for (size_t i = 0; i < n; ++i) {
     Work wk;
     r.tag(); wk.broken = r.u(); wk.spin = static_cast<unsigned>(r.u());
+    if (r.peek() != "config") wk.in.envBody = r.s();
     wk.cfg = readConfig(r);
     wk.line = readLine(r);
     wk.in.argv = readWords(r);
@@ -43,7 +47,26 @@ Case parseCase(const std::string &t) {
 
 std::string describe(const RealResult &r) { return r.threw ? "exception '" + r.what + "'" : "success"; }
 
-std::string runCase(const Case &c) {
+std::string runCaseInner(const Case &c);
+
+// environment variables are process state: they are set before any thread exists and removed after the last one ended;
+// every thread reads a variable of its own (checkEnvVarArgs(name))
+std::string runCase(const Case &cc) {
+  Case c = cc;
+  for (size_t t = 0; t < c.work.size(); ++t) {
+    RealInput &in = c.work[t].in;
+    in.prepared = true;
+    if (in.envBody.empty()) continue;
+    in.haveEnv = true;
+    in.envName = "VERIF_MT_ENV_" + std::to_string(t);
+    setenv(in.envName.c_str(), in.envBody.c_str(), 1);
+  }
+  std::string r = runCaseInner(c);
+  for (auto &wk : c.work) if (wk.in.haveEnv) unsetenv(wk.in.envName.c_str());
+  return r;
+}
+
+std::string runCaseInner(const Case &c) {
   auto &st = stats();
   const size_t T = c.work.size();
   // what every thread would observe running alone
@@ -95,6 +118,8 @@ std::string runCase(const Case &c) {
     for (auto &a : wk.cfg.args) if (!a.constraints.empty()) cons = true;
     if (cons) ++withConstraints;
     if (wk.broken) st.cls("mt.broken_line");
+    if (wk.in.haveEnv) st.cls("mt.environment_source");
+    if (wk.broken && !wk.line.empty() && wk.line.back().keyText.empty()) st.cls("mt.outcome_depends_on_cardinality");
     if (std::find(wk.in.argv.begin(), wk.in.argv.end(), "--help") != wk.in.argv.end()) st.cls("mt.usage_printed");
   }
   st.cls("mt.threads", T);
@@ -127,12 +152,45 @@ rc::Gen<Case> genCase() {
       if (wk.line.empty()) { Work d; d.cfg = Config(); continue; }
       for (auto &a : wk.cfg.args) if (isContainer(slotKinds()[a.slot]) && !isKeyValue(slotKinds()[a.slot]) && pick(60)) a.listSep = ",;:|/+"[t % 6];
       // the separator change keeps the line valid (elements never contain separator characters)
-      if (pick(25)) {
-        // a rule-breaking line: drop everything but one use of an unknown key
+      const int variant = *range<int>(0, 99);
+      if (variant < 15) {
+        // a rule-breaking line: an unknown key
         Use u; u.keyText = "zz" + std::to_string(t); wk.line.push_back(u); wk.broken = true;
+      } else if (variant < 35) {
+        // a line whose outcome depends on the cardinality bookkeeping: a single-value argument used a second time
+        std::vector<size_t> cands;
+        for (size_t i = 0; i < wk.line.size(); ++i) {
+          const Use &u = wk.line[i];
+          if (u.arg < 0 || !u.hasValue) continue;
+          const ArgDef &a = wk.cfg.args[u.arg];
+          if (isScalar(slotKinds()[a.slot]) && a.cardKind == CARD_DEFAULT && a.spec != "-" && !a.optionalValue) cands.push_back(i);
+        }
+        if (!cands.empty()) {
+          Line longer = wk.line;
+          longer.push_back(wk.line[oneOf(cands)]);
+          if (evalModel(wk.cfg, longer).verdict == ModelResult::REJECT) { wk.line = longer; wk.broken = true; }
+        }
+      }
+      // the first words of some lines come from an environment variable of the thread's own (read mode = cardinality not
+      // counted for them; the flag that says so belongs to the handler)
+      size_t envUses = 0;
+      if (!wk.broken && wk.line.size() >= 2 && pick(35)) envUses = *range<size_t>(1, wk.line.size() - 1);
+      if (envUses) {
+        Line first(wk.line.begin(), wk.line.begin() + static_cast<long>(envUses));
+        std::string body;
+        bool ok = true;
+        for (auto &w : spell(wk.cfg, first, SpellOptions())) {
+          if (w.empty()) { ok = false; break; }
+          if (!body.empty()) body += ' ';
+          for (char ch : w) { if (ch == ' ' || ch == '\'' || ch == '"' || ch == '\\') body += '\\'; body += ch; }
+        }
+        // a positional word or an open value list must not be continued by the first argv word
+        const Use &lastEnv = first.back();
+        if (lastEnv.arg < 0 || wk.cfg.args[lastEnv.arg].multiValue || !lastEnv.hasValue || wk.line[envUses].arg < 0 || wk.cfg.args[wk.line[envUses].arg].spec == "-") ok = false;
+        if (ok) wk.in.envBody = body; else envUses = 0;
       }
       wk.in.argv = {"prog" + std::to_string(t)};
-      for (auto &w : spell(wk.cfg, wk.line, SpellOptions())) wk.in.argv.push_back(w);
+      { Line rest(wk.line.begin() + static_cast<long>(envUses), wk.line.end()); for (auto &w : spell(wk.cfg, rest, SpellOptions())) wk.in.argv.push_back(w); }
       // some threads also print their usage (into their own stream): Handler::usage() consults the process-wide
       // Groups singleton, the only state that independent handlers share
       if (pick(25)) {
